@@ -46,6 +46,12 @@ type Engine struct {
 	cur *fnCtx
 	dry int
 	dryLoops []*loopInfo
+	noInline map[*ssa.Function]bool
+	inlOK    map[*ssa.Function]bool
+	inlOrd   map[*ssa.Function]map[ssa.Instruction]int
+	fragStop ssa.Instruction
+	fragAt   func(*State)
+	fragment bool // fragment execution (fragment.go): undefined registers are arbitrary, only `captured` obligations count
 	dryEsc   []map[string]bool // per dry-run loop: references that escaped in the body
 	globalFacts []string
 	iters map[string]*iterState
@@ -108,7 +114,7 @@ func Load(repoDir, specDir string, patterns []string) (*Engine, error) {
 	E := &Engine{RepoDir: repoDir, SpecDir: specDir, Pkgs: pkgs, Prog: prog, AllPkgs: map[string]*types.Package{},
 		Funcs: map[string]*ssa.Function{}, CS: NewContracts(), decls: map[string]string{}, strLits: map[string]string{},
 		typeIDs: map[string]int{}, specDecl: map[string]bool{}, globals: map[string]*Val{}, noteSet: map[string]bool{},
-		nonNilGlobals: map[string]bool{}, MaxPaths: 6000, iters: map[string]*iterState{}, usedSpecs: map[string]bool{}, usedImmutable: map[string]bool{}, ghostTypes: map[string]types.Type{}, recSpec: map[string]bool{}}
+		nonNilGlobals: map[string]bool{}, MaxPaths: 6000, iters: map[string]*iterState{}, usedSpecs: map[string]bool{}, usedImmutable: map[string]bool{}, ghostTypes: map[string]types.Type{}, recSpec: map[string]bool{}, noInline: map[*ssa.Function]bool{}, inlOK: map[*ssa.Function]bool{}, inlOrd: map[*ssa.Function]map[ssa.Instruction]int{}}
 	E.initStringTheory()
 	var addPkg func(tp *types.Package)
 	addPkg = func(tp *types.Package) {
@@ -184,6 +190,7 @@ func Load(repoDir, specDir string, patterns []string) (*Engine, error) {
 		}
 		E.Funcs[k] = f
 	}
+	E.CS.Alias = E.closureAliases()
 	// contracts: every contracts_verif.go in loaded repo packages
 	seen := map[string]bool{}
 	packages.Visit(pkgs, nil, func(p *packages.Package) {
